@@ -37,7 +37,7 @@ theorem insertBefore_same_nomerge {f : Forest} {q : Nat} {vq : Value} {l : List 
   have hqt : q ∉ handles t := by
     intro hin
     apply so.nodupKids.2
-    rw [handlesList_append, handlesList_cons]
+    rw [fs_handlesList_append, handlesList_cons]
     exact List.mem_append_right _ (List.mem_append_left _ hin)
   have hprev : f.prevSibling kr.handle = prevOf A kr := Forest.prevSibling_of_ctx sq.ctx
   have Vlr := view_without inv norm so hseam
@@ -94,7 +94,7 @@ theorem insertBefore_same_merged {f : Forest} {q : Nat} {vq : Value} {l' : List 
   have hqt : q ∉ handles t := by
     intro hin
     apply so.nodupKids.2
-    rw [handlesList_append, handlesList_cons]
+    rw [fs_handlesList_append, handlesList_cons]
     exact List.mem_append_right _ (List.mem_append_left _ hin)
   obtain ⟨ndL, _⟩ := so.nodupKids
   obtain ⟨tl, tr⟩ := tops_ne_of_nodup ndL
@@ -117,7 +117,7 @@ theorem insertBefore_same_merged {f : Forest} {q : Nat} {vq : Value} {l' : List 
   let a' := a.setValue (.text (x ++ y))
   have sX : SiteAt (f.editAt (some q) (fun _ => l' ++ a' :: t :: r')) q vq ((l' ++ [a']) ++ t :: r') := by
     have := so.edit (fun _ => l' ++ a' :: t :: r') (by
-      simp only [a', handlesList_append, handlesList_cons, setValue_handles, handlesList_nil, List.append_nil,
+      simp only [a', fs_handlesList_append, handlesList_cons, setValue_handles, handlesList_nil, List.append_nil,
         List.append_assoc]
       refine (List.Sublist.refl _).append ((List.Sublist.refl _).append ((List.Sublist.refl _).append ?_))
       exact List.sublist_append_right _ _)
@@ -141,7 +141,7 @@ theorem insertBefore_same_merged {f : Forest} {q : Nat} {vq : Value} {l' : List 
     rw [this, dropTop_mid rfl tlX trX]
   have sYm : SiteAt (f.editAt (some q) (fun _ => (l' ++ [a']) ++ r')) q vq ((l' ++ [a']) ++ r') := by
     have := so.edit (fun _ => (l' ++ [a']) ++ r') (by
-      simp only [a', handlesList_append, handlesList_cons, setValue_handles, handlesList_nil, List.append_nil,
+      simp only [a', fs_handlesList_append, handlesList_cons, setValue_handles, handlesList_nil, List.append_nil,
         List.append_assoc]
       refine (List.Sublist.refl _).append ((List.Sublist.refl _).append ?_)
       exact (List.sublist_append_right _ _).trans (List.sublist_append_right _ _))
